@@ -72,6 +72,30 @@ func maybeReinit(rng *verifsim.RNG, p *Plan, ifn string, from, to int64, prob fl
 	return true
 }
 
+// secondInterface adds another advertising interface (eth1) with the same
+// settings and a time-shifted copy of the packet traffic of eth0: what happens on
+// one interface must not leak into the other.
+func secondInterface(rng *verifsim.RNG, p *Plan) {
+	n := &p.Nodes[0]
+	is, iw := advIface(1)
+	src := n.Config.Interfaces[0]
+	src.Name = is.Name
+	n.Config.Interfaces = append(n.Config.Interfaces, src)
+	n.Ifaces = append(n.Ifaces, iw)
+	shift := int64(rng.Dur(0, 2*time.Second)) + 7
+	var extra []Action
+	for _, a := range p.Actions {
+		if a.If == "eth0" && (a.Kind == "rs" || a.Kind == "ra") && rng.Bool(0.7) {
+			b := a
+			b.If = "eth1"
+			b.At += shift
+			extra = append(extra, b)
+		}
+	}
+	p.Actions = append(p.Actions, extra...)
+	p.Class += "+2if"
+}
+
 func dur(ns int64) string { return time.Duration(ns).String() }
 
 // jitter returns an odd sub-microsecond offset so that driver actions do not
